@@ -112,6 +112,7 @@ fn worker(a: &[String]) {
         open_findings: open_ids_for(meta.id),
     };
     install_panic_hook();
+    vcheck_watchdog();
     refcodec::AVOID_ZERO_WIDTH_DEFAULT.store(ctx.is_open("KF-codec-array-of-null"), std::sync::atomic::Ordering::Relaxed);
     let mut rep = Report::default();
     if ctx.shard == 0 {
@@ -167,6 +168,10 @@ fn worker(a: &[String]) {
     std::fs::write(&a[5], serde_json::to_vec(&rep).unwrap()).unwrap();
 }
 
+fn vcheck_watchdog() {
+    driver::start_watchdog();
+}
+
 fn replay_file(path: &str) {
     let j: Json = serde_json::from_slice(&std::fs::read(path).expect("read replay")).expect("parse replay");
     let id = j["property"].as_str().expect("property");
@@ -174,6 +179,7 @@ fn replay_file(path: &str) {
     install_panic_hook();
     refcodec::AVOID_ZERO_WIDTH_DEFAULT.store(open_ids_for(id).iter().any(|o| o == "KF-codec-array-of-null"), std::sync::atomic::Ordering::Relaxed);
     let variant = j["variant"].as_str().unwrap_or("").to_string();
+    vcheck_watchdog();
     let r = guarded(|| (meta.replay)(&variant, &j["case"]));
     match r {
         Ok(Ok(())) => {
@@ -247,6 +253,7 @@ fn parent(id: &str, tier: Tier) {
                     })
                 };
                 match jcase {
+                    _ if tail.contains("STUCK-WATCHDOG") => rep.inconclusive.push(format!("worker {} made no progress in wall-clock time and gave up:\n{}", s, tail)),
                     Some(j) if meta.crashy => {
                         let sig = crash_signature(&tail, &o.status);
                         rep.violations.push(Violation {
@@ -383,6 +390,8 @@ fn crash_signature(stderr_tail: &str, status: &std::process::ExitStatus) -> Stri
         "crash:stack-overflow".into()
     } else if stderr_tail.contains("memory allocation of") || stderr_tail.contains("ALLOC-BUDGET") {
         "crash:alloc".into()
+    } else if stderr_tail.contains("SPIN-WATCHDOG") {
+        "cpu-spin".into()
     } else if stderr_tail.contains("WATCHDOG") {
         "crash:watchdog".into()
     } else {
